@@ -85,7 +85,7 @@ RULE = (
 )
 SCOPE = {
     "quick": {"N1": 7, "N2": 7, "NR": 4500, "NV": 320, "PAIR_STEP": 4},
-    "thorough": {"N1": 9, "N2": 8, "NR": 20000, "NV": 1600, "PAIR_STEP": 1},
+    "thorough": {"N1": 9, "N2": 8, "NR": 50000, "NV": 4000, "PAIR_STEP": 1},
 }
 FLOOR = {"quick": 8000, "thorough": 30000}
 REQUIRED_MONITORS = [
